@@ -60,16 +60,18 @@ enum Sx2 {
 pub fn decode(choices: &[u16]) -> LockCase {
     let mut ch = Chooser::new(choices);
     let mut next_id = 0;
-    let mut source = gen_source(&mut ch, &ScriptOpts { max_replicas: 5, max_iterations: 1, max_len: 24, non_negative: false }, &mut next_id);
+    let mut source = gen_source(&mut ch, &ScriptOpts { max_replicas: 5, max_iterations: 1, max_len: 24, non_negative: false, styles: [10, 0, 1, 5], min_len: 6, wm_weight: 5 }, &mut next_id);
     let n = source.scripts.len();
     source.repl = Repl::Limited(n as u8);
     // arrival order: repeatedly pick a producer that still has messages
     let mut left: Vec<usize> = source.scripts.iter().map(|s| messages(&s[0]).len()).collect();
     let mut order = Vec::new();
     while left.iter().any(|l| *l > 0) {
-        let alive: Vec<usize> = (0..n).filter(|i| left[*i] > 0).collect();
-        // bursts make one producer run ahead of the others
-        let p = alive[ch.below(alive.len())];
+        // a uniformly random merge of the producers' message sequences (a producer with few
+        // messages, e.g. one that ends early, lands anywhere), with bursts that make one producer
+        // run ahead of the others
+        let w: Vec<u32> = left.iter().map(|l| *l as u32).collect();
+        let p = ch.weighted(&w);
         let burst = 1 + ch.below(3);
         for _ in 0..burst.min(left[p]) {
             order.push(p);
@@ -286,7 +288,7 @@ fn run(ctx: &Ctx, _mode: &str) -> Report {
                 if rep.samples.len() < 2 {
                     rep.sample(json!(c));
                 }
-                let nt = increases >= 2 && c.source.scripts.len() >= 2;
+                let nt = increases >= 2 && c.source.scripts.len() >= 2 && by_end;
                 Case::Pass { nontrivial: if nt { Some(fingerprint(&c)) } else { None } }
             }
             Err((clause, cause, message)) => {
@@ -311,7 +313,7 @@ pub fn def() -> CheckDef {
     CheckDef {
         id: "C17",
         level: "exploration",
-        rule: "lock-step histories: 1-5 scripted producer replicas (scripts respect the watermark contract; replicas without watermarks, without data, ending early) send one message per scripted flush over a forward edge to ONE consumer replica; through the observer hook the harness parks every producer before each send and releases the messages in a generated interleaving (bursts let a producer run ahead), waiting until the consumer has drained each one, so the arrival order at the block input is exactly the generated one; oracle = reference model of the frontier: m = minimum, over the producers that have not ended the iteration, of their latest watermark; before every element the operators observe, the last watermark they observed must equal m (progress), and every observed watermark is a value m took since the previous element, strictly increasing (safety); elements are observed in arrival order; non-trivial = m increased >= 2 times with >= 2 producers; distinct = hash of (scripts, interleaving)",
+        rule: "lock-step histories: 1-5 scripted producer replicas (scripts respect the watermark contract; replicas without watermarks, without data, ending early) send one message per scripted flush over a forward edge to ONE consumer replica; through the observer hook the harness parks every producer before each send and releases the messages in a generated interleaving (bursts let a producer run ahead), waiting until the consumer has drained each one, so the arrival order at the block input is exactly the generated one; oracle = reference model of the frontier: m = minimum, over the producers that have not ended the iteration, of their latest watermark; before every element the operators observe, the last watermark they observed must equal m (progress), and every observed watermark is a value m took since the previous element, strictly increasing (safety); elements are observed in arrival order; non-trivial = m increased >= 2 times with >= 2 producers, at least once because a producer ended; distinct = hash of (scripts, interleaving)",
         assumptions: &["one consumer replica, forward edge, local transport (the frontier logic is the same for every edge kind and transport)"],
         modes: |t| vec![("main", t.pick(8, 14))],
         run,
